@@ -69,11 +69,11 @@ theorem finish {N : Nat} {d : Cfg} {m : QEv} {rp : Option Nat} {t rest : Sk} {st
       have hstk : evStack m.kind = [f] := by rw [hk]; rfl
       simp only [flatKind, Bool.and_eq_true] at hk'
       have hwf := hk'.2
-      simp only [Frame.wf, Bool.and_eq_true, beq_iff_eq, decide_eq_true_eq] at hwf
-      have hmc : f.mc = 0 := hwf.1.1.1
+      simp only [Frame.wf, Bool.and_eq_true, Bool.or_eq_true, beq_iff_eq, decide_eq_true_eq] at hwf
+      have hmc : f.mc = 0 ∨ f.width ≤ f.mc := hwf.1.1.1
       have hfr : f.rest.flat = true := hwf.1.2
       by_cases hlt : (joinAfter d.joins f m.id rp).filled.length < f.width
-      · have hh := advance_hold cX (fuel + 1) m.id f rp d.vol hndd hmc hlt
+      · have hh := advance_hold cX (fuel + 1) m.id f rp d.vol hndd hmc hwf.2 hlt
         rw [hh] at hadv
         obtain ⟨rfl, rfl⟩ := Prod.mk.inj hadv
         exact fin_hold h hm hu hstk (hlastv rfl (by simp)) hkt hlt
